@@ -124,6 +124,7 @@ Section TokPrint.
     | GSel (SName k) => Ok (br (tk1 TSQ (canonical_body k)))
     | GSel SWild => Ok (br (tk1 TWild [42%N]))
     | GSel SKeys => Ok (br (tk1 TKeys (e_keys E)))
+    | GSel ((SSlice _ _ _) as s) => x <- sel_toks s ;; Ok (br x)
     | GSel s => sel_toks s
     | GDescent => Ok (tk1 TDDot [46; 46]%N)
     | GList items => xs <- sels_toks items ;; Ok (br (sep_by [comma] xs))
@@ -180,7 +181,6 @@ with norm_sels (l : sels) : sels :=
   match l with LNil => LNil | LCons s r => LCons (norm_sel s) (norm_sels r) end
 with norm_seg (g : segment) : segment :=
   match g with
-  | GSel (SSlice a b c) => GSel (SSlice a b (match c with None => Some 1%Z | _ => c end))
   | GSel s => GList (LCons (norm_sel s) LNil)
   | GDescent => GDescent
   | GList items => GList (norm_sels items)
